@@ -93,6 +93,17 @@ func ctxT() (context.Context, context.CancelFunc) {
 	return context.WithTimeout(context.Background(), 20*time.Second)
 }
 
+// digestOf: digest() restricted to the tables other than `except`.
+func digestOthers(d, except string) string {
+	var keep []string
+	for _, part := range strings.Split(d, ";") {
+		if part != "" && !strings.HasPrefix(part, except+"=") {
+			keep = append(keep, part)
+		}
+	}
+	return strings.Join(keep, ";")
+}
+
 // digest of all tables of the leader (linearizable full reads).
 func (e *apiEnv) digest() string {
 	var names []string
@@ -132,8 +143,18 @@ func (e *apiEnv) bothAlive() bool { return e.leader.alive() && e.follower.alive(
 
 // record one request: line, status, unchanged?, alive?
 func (e *apiEnv) record(line string, before string, err error) {
+	e.recordW(line, before, err, "")
+}
+
+// recordW: as record; for an accepted write to table `wtable` every OTHER table must be unchanged.
+func (e *apiEnv) recordW(line string, before string, err error, wtable string) {
 	c := code(err)
 	ans := c
+	if c == "0" && wtable != "" && before != "" && e.bothAlive() {
+		if after := e.digest(); digestOthers(after, wtable) != digestOthers(before, wtable) {
+			ans = "0 OTHER-TABLE-CHANGED " + before + " -> " + after
+		}
+	}
 	if c == "14" {
 		// connection refused / reset: give a dying process the time to be reaped
 		time.Sleep(300 * time.Millisecond)
@@ -271,7 +292,7 @@ func (e *apiEnv) genPut() {
 	ctx, cancel := ctxT()
 	_, err := kv.Put(ctx, rq)
 	cancel()
-	e.record(fmt.Sprintf("req %s put %s %d %d", s, hx(rq.Table), len(rq.Key), vl), before, err)
+	e.recordW(fmt.Sprintf("req %s put %s %d %d", s, hx(rq.Table), len(rq.Key), vl), before, err, string(rq.Table))
 	if err == nil && vl > 100000 {
 		// keep the tables small: remove the big value again (a valid request of its own)
 		ctx, cancel := ctxT()
@@ -291,7 +312,7 @@ func (e *apiEnv) genDel() {
 	ctx, cancel := ctxT()
 	_, err := kv.DeleteRange(ctx, rq)
 	cancel()
-	e.record(fmt.Sprintf("req %s del %s %d %d", s, hx(rq.Table), len(rq.Key), len(rq.RangeEnd)), before, err)
+	e.recordW(fmt.Sprintf("req %s del %s %d %d", s, hx(rq.Table), len(rq.Key), len(rq.RangeEnd)), before, err, string(rq.Table))
 }
 
 func (e *apiEnv) genOps(sb *strings.Builder, readonly bool) []*regattapb.RequestOp {
@@ -359,7 +380,7 @@ func (e *apiEnv) genTxn() {
 	ctx, cancel := ctxT()
 	_, err := kv.Txn(ctx, rq)
 	cancel()
-	e.record(fmt.Sprintf("req %s txn %s %s", s, hx(rq.Table), sb.String()), before, err)
+	e.recordW(fmt.Sprintf("req %s txn %s %s", s, hx(rq.Table), sb.String()), before, err, string(rq.Table))
 	// big values written by an accepted transaction are removed again
 	if err == nil {
 		for _, op := range append(rq.Success, rq.Failure...) {
@@ -458,8 +479,26 @@ func (e *apiEnv) genTables() {
 			ans = "follower-did-not-converge"
 		}
 		e.out.Line("follower-sync", ans)
+		if create {
+			e.freshCheck(string(name))
+		}
 	}
 	_ = tc
+}
+
+// freshCheck: a table that has just been created - possibly under a name used before - is empty.
+func (e *apiEnv) freshCheck(name string) {
+	ctx, cancel := ctxT()
+	defer cancel()
+	r, err := e.lkv.Range(ctx, &regattapb.RangeRequest{Table: []byte(name), Key: []byte{0}, RangeEnd: []byte{0}, Linearizable: true, CountOnly: true})
+	ans := "empty"
+	if err != nil {
+		ans = "err " + code(err)
+	} else if r.Count != 0 {
+		ans = fmt.Sprintf("NOT-EMPTY %d", r.Count)
+	}
+	e.out.Line("fresh-table "+hx([]byte(name)), ans)
+	e.out.Count("fresh_table")
 }
 
 func appendVarint(b []byte, v uint64) []byte {
@@ -552,6 +591,53 @@ func hAPI(dir string) {
 			}
 		default:
 			e.genRaw()
+		}
+	}
+	// a table with content is deleted and created again under the same name: the new one is empty, the
+	// others are what they were
+	if e.bothAlive() {
+		for _, name := range []string{"t1", "t2"} {
+			if !e.tables[name] {
+				continue
+			}
+			ctx, cancel := ctxT()
+			_, perr := e.lkv.Put(ctx, &regattapb.PutRequest{Table: []byte(name), Key: []byte("left-over"), Value: []byte("x")})
+			cancel()
+			e.record(fmt.Sprintf("req L put %s 9 1", hx([]byte(name))), "", perr)
+			before := e.digest()
+			ctx, cancel = ctxT()
+			_, derr := e.ltab.Delete(ctx, &regattapb.DeleteTableRequest{Name: name})
+			cancel()
+			if derr == nil {
+				delete(e.tables, name)
+			}
+			e.record("req L tdelete "+hx([]byte(name)), "", derr)
+			ans := "ok"
+			if !e.followerSync() {
+				ans = "follower-did-not-converge"
+			}
+			out.Line("follower-sync", ans)
+			ctx, cancel = ctxT()
+			_, cerr := e.ltab.Create(ctx, &regattapb.CreateTableRequest{Name: name})
+			cancel()
+			if cerr == nil {
+				e.tables[name] = true
+			}
+			e.record("req L tcreate "+hx([]byte(name)), "", cerr)
+			ans = "ok"
+			if !e.followerSync() {
+				ans = "follower-did-not-converge"
+			}
+			out.Line("follower-sync", ans)
+			if cerr == nil {
+				e.freshCheck(name)
+			}
+			oth := "others-unchanged"
+			if digestOthers(e.digest(), name) != digestOthers(before, name) {
+				oth = "OTHER-TABLE-CHANGED"
+			}
+			out.Line("recreate-isolation "+hx([]byte(name)), oth)
+			break
 		}
 	}
 	if !e.bothAlive() {
